@@ -7,7 +7,9 @@ future schedule-change / departure events and the additional-power bisection),
 `charge_vehicles_during_core_standing_time`, `charge_vehicles_during_core_standing_time_v2g`,
 `charge_vehicles`, `charge_vehicles_after_core_standing_time`.
 
-The model is the behaviour of the code REPAIRED by fixes/SCH1.diff, SCH2.diff, SCH3.diff, SCH4.diff (all four):
+The model is the behaviour of the code REPAIRED by fixes/SCH1.diff, SCH2.diff, SCH3.diff, SCH4.diff and H4.diff:
+  * H4 `dt_to_end_of_time_window` stops its one-minute scan after eight days (pinned: no bound — a core standing time
+    that covers the whole week never left the loop);
   * SCH1 `step` uses the dict returned by the V2G pass (pinned: return value ignored, the pass's
     commands were lost when the first pass had produced none);
   * SCH2 the excess branch of `charge_vehicles_during_core_standing_time` searches below
@@ -400,8 +402,21 @@ def simBalanced (ops : Ops α B) (env : Env α) (cs : StationS α) (v : VehicleS
     sbLoop ops env v.bat dt delta env.fuel 0 false minP maxP 0
   else .ok 0
 
+/-- `Schedule.dt_to_end_of_time_window()` as repaired by fixes/H4.diff:
+`while duration < timedelta(days=8) and dt_within_core_standing_time(now + duration, cst): duration += 1 min`;
+the first argument counts the minutes left until eight days (the pinned code scanned without a bound:
+`dtToEndOfTimeWindow` of Model/Util.lean, characterised in C15) -/
+def dtToEndScan (cur : DateTime) (cst : Option CoreStandingTime) : Nat → Int → Py Int
+  | 0, duration => pure duration
+  | n + 1, duration => do
+    if (← dtWithinCoreStandingTime (cur.add duration) cst) then dtToEndScan cur cst n (duration + usPerMinute)
+    else pure duration
+
+/-- eight days in minutes -/
+def dtToEndMinutes : Nat := 8 * 1440
+
 def dtToEnd (env : Env α) : Py Int :=
-  dtToEndOfTimeWindow env.now env.cst (dtToEndFuel env.now env.cst)
+  dtToEndScan env.now env.cst dtToEndMinutes 0
 
 /-- `Schedule.evaluate_core_standing_time_ahead()` (the world is left unchanged: every battery
 simulation is undone) -/
